@@ -824,50 +824,73 @@ def judge_unpack(fi: FunctionInfo, at: ast.stmt, target: ast.expr, rhs: ast.expr
 
 
 def _after_successful_relfn2path(call: ast.Call, arg: ast.expr, fi: FunctionInfo) -> bool:
-    """The construct runs only when a local is truthy that is bound (apart from None) solely where
-    ``relfn2path(<same text>)`` has completed normally: in the ``else`` of the try around it, or after it in the try body."""
+    """The construct runs only when a local is truthy / not None that is bound (apart from None / False) solely where
+    ``relfn2path(<same text>)`` has completed normally - in the ``else`` of the try around it or after it in the try
+    body - or solely under such a local (``is_file = p.is_file()`` under ``if potential_path:``)."""
     if fi.is_lambda:
         return False
     try:
         from .flow import get_cfg
 
         cfg = get_cfg(fi)
-        facts = cfg.guards(cfg.stmt_of(call))
     except Exception:
         return False
     atext = unparse(arg)
-    for t, pol in facts:
-        if not (isinstance(t, ast.Name) and pol):
-            continue
+
+    def witnesses(stmt) -> list[str]:
+        out = []
+        for t, pol in cfg.guards(stmt):
+            if isinstance(t, ast.Name) and pol:
+                out.append(t.id)
+            if isinstance(t, ast.Compare) and len(t.ops) == 1 and isinstance(t.left, ast.Name) and isinstance(t.comparators[0], ast.Constant) and t.comparators[0].value is None:
+                if (isinstance(t.ops[0], ast.IsNot) and pol) or (isinstance(t.ops[0], ast.Is) and not pol):
+                    out.append(t.left.id)
+        return out
+
+    def after_success(st: ast.AST) -> bool:
+        for a in ancestors(st):
+            if isinstance(a, (ast.FunctionDef, ast.Lambda)):
+                break
+            if isinstance(a, ast.Try):
+                rcalls = [c for b in a.body for c in ast.walk(b) if isinstance(c, ast.Call) and isinstance(c.func, ast.Attribute) and c.func.attr == "relfn2path" and c.args and unparse(c.args[0]) == atext]
+                if not rcalls:
+                    continue
+                if any(st is x or st in ast.walk(x) for x in a.orelse):
+                    return True
+                if any(st is x or st in ast.walk(x) for x in a.body) and all(c.lineno < st.lineno for c in rcalls):
+                    return True
+        return False
+
+    def implies_success(name: str, depth: int, seen: frozenset) -> bool:
+        if depth > 4 or name in seen or name in fi.params:
+            return False
         defs = []
         for n in fi.local_nodes():
-            if isinstance(n, ast.Assign) and len(n.targets) == 1 and isinstance(n.targets[0], ast.Name) and n.targets[0].id == t.id:
+            if isinstance(n, ast.Assign) and len(n.targets) == 1 and isinstance(n.targets[0], ast.Name) and n.targets[0].id == name:
                 defs.append((n, n.value))
-            elif isinstance(n, ast.AnnAssign) and isinstance(n.target, ast.Name) and n.target.id == t.id and n.value is not None:
+            elif isinstance(n, ast.AnnAssign) and isinstance(n.target, ast.Name) and n.target.id == name and n.value is not None:
                 defs.append((n, n.value))
-            elif isinstance(n, ast.Name) and n.id == t.id and isinstance(n.ctx, ast.Store) and not isinstance(parent(n), (ast.Assign, ast.AnnAssign)):
+            elif isinstance(n, ast.Name) and n.id == name and isinstance(n.ctx, ast.Store) and not isinstance(parent(n), (ast.Assign, ast.AnnAssign)):
                 defs.append((n, None))
-        real = [(n, v) for n, v in defs if not (isinstance(v, ast.Constant) and v.value is None)]
+        real = [(n, v) for n, v in defs if not (isinstance(v, ast.Constant) and (v.value is None or v.value is False))]
         if not real or any(v is None for _, v in real):
-            continue
-
-        def after_success(st: ast.AST) -> bool:
-            for a in ancestors(st):
-                if isinstance(a, (ast.FunctionDef, ast.Lambda)):
-                    break
-                if isinstance(a, ast.Try):
-                    rcalls = [c for b in a.body for c in ast.walk(b) if isinstance(c, ast.Call) and isinstance(c.func, ast.Attribute) and c.func.attr == "relfn2path" and c.args and unparse(c.args[0]) == atext]
-                    if not rcalls:
-                        continue
-                    if any(st is x or st in ast.walk(x) for x in a.orelse):
-                        return True
-                    if any(st is x or st in ast.walk(x) for x in a.body) and all(c.lineno < st.lineno for c in rcalls):
-                        return True
             return False
+        for n, _ in real:
+            if after_success(n):
+                continue
+            try:
+                ws = witnesses(cfg.stmt_of(n))
+            except Exception:
+                return False
+            if not any(implies_success(w, depth + 1, seen | {name}) for w in ws):
+                return False
+        return True
 
-        if all(after_success(n) for n, _ in real):
-            return True
-    return False
+    try:
+        ws0 = witnesses(cfg.stmt_of(call))
+    except Exception:
+        return False
+    return any(implies_success(w, 0, frozenset()) for w in ws0)
 
 
 _FIELD_ENUMS = ("get_fields", "as_triple", "fields", "asdict")
@@ -1072,6 +1095,8 @@ class EscapeAnalysis:
         for n in names:
             if n in ("yaml.safe_load", "yaml.load", "yaml.safe_load_all", "yaml.full_load", "yaml.unsafe_load"):
                 add(YAML_ERRORS, "yaml load")
+                if self.yaml_recurses():
+                    add([B + "RecursionError"], "yaml load (PyYAML's Composer/Constructor recurse once per nesting level: `[[[[...` deeper than the recursion limit)")
                 extra = self.yaml_scalar_constructor_errors()
                 if extra:
                     add(extra, "yaml load (SafeConstructor scalar constructors: int()/datetime of a matched scalar raise a plain ValueError, not a YAMLError)")
@@ -1274,6 +1299,43 @@ class EscapeAnalysis:
                 if defs and all({x.id for x in ast.walk(d) if isinstance(x, ast.Name) and isinstance(x.ctx, ast.Load) and not (isinstance(parent(x), ast.Call) and parent(x).func is x)} <= {tested.id} for d in defs):
                     return "tested"
         return "tainted"
+
+    def yaml_recurses(self) -> bool:
+        """PyYAML's Composer is recursive in the nesting depth of the document: ``compose_node`` calls
+        ``compose_sequence_node`` / ``compose_mapping_node``, which call ``compose_node`` again (read from the sibling
+        source; when it cannot be read the documented behaviour is assumed)."""
+
+        def compute():
+            try:
+                m = self.c.sibling("yaml/composer.py")
+            except Exception:
+                return True
+            ci = m.classes.get("Composer")
+            if ci is None:
+                return True
+            edges: dict[str, set[str]] = {}
+            for name, f in ci.methods.items():
+                edges[name] = {
+                    c.func.attr
+                    for c in f.local_nodes()
+                    if isinstance(c, ast.Call) and isinstance(c.func, ast.Attribute) and isinstance(c.func.value, ast.Name) and c.func.value.id == "self" and c.func.attr in ci.methods
+                }
+            # a cycle reachable from compose_node
+            start = "compose_node"
+            if start not in edges:
+                return True
+            seen, work = set(), [start]
+            while work:
+                n = work.pop()
+                for t in edges.get(n, ()):
+                    if t == start:
+                        return True
+                    if t not in seen:
+                        seen.add(t)
+                        work.append(t)
+            return False
+
+        return self.c.cache("yaml-recurses", compute)
 
     def yaml_scalar_constructor_errors(self) -> list[str]:
         """What the scalar constructors of PyYAML's SafeConstructor raise besides YAMLError, read from the sibling
@@ -1553,6 +1615,223 @@ class EscapeAnalysis:
                         binds.append((getattr(st, "value", None), c.module))
         return bool(binds) and all(v is not None and infinite(v, m) for v, m in binds)
 
+    # -- asserts that restate a proved fact -----------------------------------------------------------
+    def _assert_discharged(self, fi: FunctionInfo, st: ast.Assert) -> str | None:
+        key = id(st)
+        cache = self.__dict__.setdefault("_assert_cache", {})
+        if key not in cache:
+            try:
+                cache[key] = self._assert_directive_result(fi, st) or self._assert_yield_protocol(fi, st)
+            except Exception:
+                cache[key] = None
+        return cache[key]
+
+    def _assert_directive_result(self, fi: FunctionInfo, st: ast.Assert) -> str | None:
+        """``assert isinstance(<directive result>[..], ...)``: the docutils contract "run() returns a list of nodes",
+        wherever the check lives (the result may arrive through a parameter from every caller)."""
+        t = st.test
+        if not (isinstance(t, ast.Call) and dotted(t.func) == "isinstance" and len(t.args) == 2):
+            return None
+        root = t.args[0]
+        while isinstance(root, ast.Subscript):
+            root = root.value
+        if not isinstance(root, ast.Name) or fi.is_lambda:
+            return None
+
+        def is_result(name: str, f: FunctionInfo, depth: int) -> bool:
+            if depth > 3 or f.is_lambda:
+                return False
+            if name in f.params:
+                if any(isinstance(x, ast.Name) and x.id == name and isinstance(x.ctx, ast.Store) for x in f.local_nodes()):
+                    return False
+                a = f.node.args
+                pos = [x.arg for x in a.posonlyargs + a.args]
+                sites = self.g.callers().get(f.fq, [])
+                if not sites:
+                    return False
+                for caller, c in sites:
+                    ppos = pos[1:] if f.cls is not None and isinstance(c.func, ast.Attribute) and "staticmethod" not in f.decorators() and "classmethod" not in f.decorators() else pos
+                    if f.cls is not None and isinstance(c.func, ast.Attribute) and "staticmethod" in f.decorators():
+                        ppos = pos
+                    bound = dict(zip(ppos, c.args))
+                    for k in c.keywords:
+                        if k.arg:
+                            bound[k.arg] = k.value
+                    v = bound.get(name)
+                    if not (isinstance(v, ast.Name) and is_result(v.id, caller, depth + 1)):
+                        return False
+                return True
+            defs = [n.value for n in f.local_nodes() if isinstance(n, ast.Assign) and len(n.targets) == 1 and isinstance(n.targets[0], ast.Name) and n.targets[0].id == name]
+            others = [n for n in f.local_nodes() if isinstance(n, ast.Name) and n.id == name and isinstance(n.ctx, ast.Store) and not (isinstance(parent(n), ast.Assign) and len(parent(n).targets) == 1)]
+            if not defs or others:
+                return False
+            n_run = 0
+            for d in defs:
+                if isinstance(d, ast.List):
+                    continue  # a list the renderer builds itself (e.g. the error message of a failed run)
+                if not isinstance(d, ast.Call):
+                    return False
+                if not any(isinstance(t_, Special) and t_.kind == DIRECTIVE_RUN for t_ in self.g.resolve_call(d, f)):
+                    return False
+                n_run += 1
+            return n_run > 0
+
+        if is_result(root.id, fi, 0):
+            return "assert on the result of directive_instance.run(): docutils directive contract (run() returns a list of nodes)"
+        return None
+
+    def _assert_yield_protocol(self, fi: FunctionInfo, st: ast.Assert) -> str | None:
+        """``assert X is not None`` in ``for tok in producer():`` under ``isinstance(tok, V)``, where X is set to the token in
+        the ``isinstance(tok, K)`` branch and cleared only in the V branch, and the producer generator yields a K-typed
+        token on every path before each V-typed one (and between two V-typed ones)."""
+        t = st.test
+        if not (isinstance(t, ast.Compare) and len(t.ops) == 1 and isinstance(t.ops[0], ast.IsNot) and isinstance(t.left, ast.Name)
+                and isinstance(t.comparators[0], ast.Constant) and t.comparators[0].value is None) or fi.is_lambda:
+            return None
+        X = t.left.id
+        loop = next((a for a in ancestors(st) if isinstance(a, ast.For)), None)
+        if loop is None or not isinstance(loop.target, ast.Name) or not isinstance(loop.iter, ast.Call):
+            return None
+        tok = loop.target.id
+        prods = [p_ for p_ in self.g.flat_targets(self.g.resolve_call(loop.iter, fi))]
+        if len(prods) != 1 or prods[0].is_lambda or not prods[0].is_generator():
+            return None
+        P = prods[0]
+        from .flow import get_cfg, facts as _atomic
+
+        cfg = get_cfg(fi)
+
+        def inst_facts(node) -> set[str]:
+            out = set()
+            for tt, pol in cfg.guards(cfg.stmt_of(node)):
+                if pol and isinstance(tt, ast.Call) and dotted(tt.func) == "isinstance" and len(tt.args) == 2 and isinstance(tt.args[0], ast.Name) and tt.args[0].id == tok and isinstance(tt.args[1], ast.Name):
+                    out.add(tt.args[1].id)
+            return out
+
+        vs = inst_facts(st)
+        if len(vs) != 1:
+            return None
+        V = next(iter(vs))
+        sets, clears = [], []
+        for n in ast.walk(loop):
+            if isinstance(n, ast.Name) and n.id == X and isinstance(n.ctx, (ast.Store, ast.Del)):
+                a = parent(n)
+                if isinstance(a, ast.Assign) and len(a.targets) == 1 and isinstance(a.value, ast.Name) and a.value.id == tok:
+                    sets.append(a)
+                elif isinstance(a, ast.Assign) and len(a.targets) == 1 and isinstance(a.value, ast.Constant) and a.value.value is None:
+                    clears.append(a)
+                else:
+                    return None
+        if not sets or any(inst_facts(c) != {V} for c in clears):
+            return None
+        ks = set.union(*[inst_facts(s_) for s_ in sets])
+        if len(ks) != 1 or any(inst_facts(s_) != ks for s_ in sets):
+            return None
+        K = next(iter(ks))
+        kci, vci = fi.module.classes.get(K), fi.module.classes.get(V)
+        if kci is None or vci is None or K == V:
+            return None
+        if any(c.name == V for c in self.c.mro(kci)) or any(c.name == K for c in self.c.mro(vci)):
+            return None
+        # the K branch: a top-level `if isinstance(tok, K):` of the loop body on which every path stores the token
+        branch = next((b for b in loop.body if isinstance(b, ast.If) and isinstance(b.test, ast.Call) and dotted(b.test.func) == "isinstance"
+                       and len(b.test.args) == 2 and unparse(b.test.args[0]) == tok and unparse(b.test.args[1]) == K), None)
+        if branch is None or loop.body.index(branch) != next((i for i, b in enumerate(loop.body) if not isinstance(b, (ast.Expr,)) or not isinstance(b.value, ast.Constant)), 0):
+            return None
+        if cfg.paths_avoiding(("T", branch), loop, lambda nd: any(nd is s_ for s_ in sets)):
+            return None
+        # producer protocol
+        pcfg = get_cfg(P)
+        kinds: dict[int, tuple[ast.stmt, str]] = {}
+        for y in P.local_nodes():
+            if isinstance(y, ast.YieldFrom):
+                return None
+            if not isinstance(y, ast.Yield):
+                continue
+            kind = self._yield_kind(y.value, P, K, V)
+            if kind is None:
+                return None
+            ys = pcfg.stmt_of(y)
+            kinds[id(ys)] = (ys, kind)
+        k_stmts = [s_ for s_, kd in kinds.values() if kd == "K"]
+        v_stmts = [s_ for s_, kd in kinds.values() if kd == "V"]
+        if not v_stmts:
+            return None
+
+        def reach_avoiding_k(starts, goal) -> bool:
+            seen, work = set(), list(starts)
+            while work:
+                nd = work.pop()
+                key_ = nd if isinstance(nd, (tuple, str)) else id(nd)
+                if key_ in seen:
+                    continue
+                seen.add(key_)
+                if nd is goal:
+                    return True
+                if any(nd is k_ for k_ in k_stmts):
+                    continue
+                work.extend(pcfg.succ.get(nd, []))
+            return False
+
+        for v in v_stmts:
+            if reach_avoiding_k(pcfg.succ.get("ENTRY", []), v):
+                return None
+            for u in v_stmts:
+                if reach_avoiding_k(pcfg.succ.get(u, []), v):
+                    return None
+        return (
+            f"assert {X} is not None: `{P.name}` yields a {K} on every path before each {V} (and between two of them); the consumer stores the token in its "
+            f"{K} branch on every path and clears `{X}` only after a {V}"
+        )
+
+    def _yield_kind(self, e: ast.expr | None, P: FunctionInfo, K: str, V: str) -> str | None:
+        """'K' | 'V' | 'O' (another token class) for the value of a yield in the producer."""
+        if not isinstance(e, ast.Call):
+            return None
+        d = dotted(e.func)
+        if d in P.module.classes:
+            ci = P.module.classes[d]
+            names = [c.name for c in self.c.mro(ci)]
+            return "K" if K in names else "V" if V in names else "O"
+        fs = self.g.flat_targets(self.g.resolve_call(e, P))
+        if len(fs) != 1 or fs[0].is_lambda:
+            return None
+        f = fs[0]
+        rets = [r.value for r in f.local_nodes() if isinstance(r, ast.Return)]
+        if not rets or any(r is None for r in rets):
+            return None
+
+        def ctor(x) -> str | None:
+            return dotted(x.func) if isinstance(x, ast.Call) and dotted(x.func) in (K, V) else None
+
+        if all(ctor(r) == V for r in rets):
+            return "V"
+        if all(ctor(r) == K for r in rets):
+            return "K"
+        flags = set()
+        for r in rets:
+            if not (isinstance(r, ast.IfExp) and isinstance(r.test, ast.Name) and ctor(r.body) == K and ctor(r.orelse) == V):
+                return None
+            flags.add(r.test.id)
+        if len(flags) != 1:
+            return None
+        flag = flags.pop()
+        if flag not in f.params or any(isinstance(x, ast.Name) and x.id == flag and isinstance(x.ctx, ast.Store) for x in f.local_nodes()):
+            return None
+        val = next((k.value for k in e.keywords if k.arg == flag), None)
+        if val is None:
+            a = f.node.args
+            pos = [x.arg for x in a.posonlyargs + a.args]
+            if flag in pos and pos.index(flag) < len(e.args):
+                val = e.args[pos.index(flag)]
+            else:
+                for p_, dflt in zip(reversed(a.posonlyargs + a.args), reversed(a.defaults)):
+                    if p_.arg == flag:
+                        val = dflt
+        if isinstance(val, ast.Constant) and isinstance(val.value, bool):
+            return "K" if val.value else "V"
+        return None
+
     def _getattr_method_table(self, call: ast.Call, fi: FunctionInfo) -> bool:
         """``getattr(self, self.TABLE[k])`` where TABLE is a dict display in the class body (or a base class) whose
         values are string constants naming methods that the class (through its MRO) defines."""
@@ -1797,6 +2076,10 @@ class EscapeAnalysis:
             return out
         if isinstance(st, ast.Assert):
             out |= self.expr_raises(st.test, fi)
+            why = self._assert_discharged(fi, st)
+            if why:
+                self._discharge(fi, st, why)
+                return out
             o = self.origin(fi, st, B + "AssertionError")
             if o is not None:
                 out.add(o)
